@@ -550,6 +550,24 @@ def gen_c10(rnd, n, thorough=False):
             cases.append({'id': 'c10-%d-nomatch' % c, 'lines': sl, 'tags': {'layout': 'two_1s', 'kind': 'item_without_matching_files', 'files': 3, 'window': 'default', 'remote': 1}})
         if c == 2:
             cases.append(many_files_case(rnd, 'c10-%d-hundreds' % c, ['sum'], nfiles=rnd.pick([257, 260, 300, 515] if thorough else [257, 260, 300])))
+    # the files of an item one directory below it (a pattern with a directory in it), in a tree that has not changed
+    # for a while; summed through ONE server, then a matching file appears in (and later one disappears from) an
+    # existing directory and the sum is asked again: always the files that match at that moment
+    l2 = CLI_LAYOUTS['two_1s']
+    sl = []
+    for h in ('h1', 'h2'):
+        sl += fill_ops(rnd, 's/i1/%s/req.wsp' % h, l2, 2, 0x3f000000, density=0.7, inconsistent=False)
+    sl += fill_ops(rnd, 's/i1/h3/other.wsp', l2, 2, 0x3f000000, density=0.7, inconsistent=False)
+    sl += ["olddir s/i1 30", "olddir s 30"]
+    for rem in (1, 0):
+        sl.append("clisum base=s item=i1 src=*/req.wsp from=0 until=0 archive=-1 header=1 remote=%d" % rem)
+    sl += fill_ops(rnd, 's/i1/h3/req.wsp', l2, 2, 0x3f000000, density=0.7, inconsistent=False)
+    for rem in (1, 0):
+        sl.append("clisum base=s item=i1 src=*/req.wsp from=0 until=0 archive=-1 header=1 remote=%d" % rem)
+    sl += ["rmfile s/i1/h2/req.wsp"]
+    for rem in (1, 0):
+        sl.append("clisum base=s item=i1 src=*/req.wsp from=0 until=0 archive=-1 header=1 remote=%d" % rem)
+    cases.append({'id': 'c10-subdir-change', 'lines': sl, 'tags': {'layout': 'two_1s', 'kind': 'files_below_item_change_between_sums', 'files': 3, 'window': 'default', 'remote': 1}})
     return cases
 
 
